@@ -321,6 +321,21 @@ func freshSlice(v ssa.Value, seen map[ssa.Value]bool) (bool, string) {
 		if c := x.Call.StaticCallee(); c != nil && fnName(c) == "sortedKeys" {
 			return true, "helper result"
 		}
+		// a helper of the module whose every return hands back storage it allocated itself
+		if c := x.Call.StaticCallee(); c != nil && c.Blocks != nil && fnPkgName(c) == "interpreter" && c.Signature.Results().Len() == 1 {
+			all, any := true, false
+			instrsOf(c, func(in ssa.Instruction) {
+				if r, ok := in.(*ssa.Return); ok && len(r.Results) == 1 {
+					any = true
+					if ok, _ := freshSlice(r.Results[0], seen); !ok {
+						all = false
+					}
+				}
+			})
+			if all && any {
+				return true, "result of " + fnName(c) + ", which builds it in storage of its own"
+			}
+		}
 		return false, "result of " + describe(v)
 	case *ssa.Slice:
 		if al, ok := x.X.(*ssa.Alloc); ok {
